@@ -608,6 +608,15 @@ structure IsRot90 (f R : Fld) (a b : Nat) : Prop where
   valid : ∀ i, ∃ j, R.valid.get i = f.valid.get j
   nvdim : R.nvdim = f.nvdim
 
+/-! ### spec layer: exactness at a cell of a masked field -/
+
+/-- the cell `i` is valid and, along every axis (all open, non-zero cell size), its own maximal run
+of valid cells has at least three cells -/
+def ExactAt (f : Fld) (i : List Nat) : Prop :=
+  ∀ a, a < f.mesh.ndim → periodic f a = false ∧ f.mesh.cellAt a ≠ 0 ∧ f.valid.line a i (i.getD a 0) = true ∧
+    3 ≤ C04.runBefore (fun j => f.valid.line a i j) (i.getD a 0)
+        + C04.runFrom (fun j => f.valid.line a i j) (f.mesh.nAt a) (i.getD a 0)
+
 /-! ### spec layer: fields that differentiation cannot tell apart -/
 
 /-- periodicity of an axis, read off the mesh (`periodic f ax` is `perM f.mesh ax`) -/
